@@ -45,7 +45,7 @@ func TestBrowserModelPieces(t *testing.T) {
 		{[]HV{{hACAO, []string{"https://example.com"}}}, true, false}, // no ACAC
 		{[]HV{{hACAO, []string{"https://example.com"}}, {hACAC, []string{"true"}}}, true, true},
 		{[]HV{{hACAO, []string{"https://example.com"}}, {hACAC, []string{"True"}}}, true, false}, // case-sensitive
-		{[]HV{{hACAO, []string{"https://example.com", "https://example.com"}}}, false, false},     // two values combine to "a, a"
+		{[]HV{{hACAO, []string{"https://example.com", "https://example.com"}}}, false, false},    // two values combine to "a, a"
 		{[]HV{{hACAO, []string{"https://EXAMPLE.com"}}}, false, false},
 		{nil, false, false},
 	} {
